@@ -72,7 +72,13 @@ def verify(src, prop, name):
                 dst = os.path.join(wt, pk, os.path.basename(f))
                 shutil.copyfile(f, dst)
                 indemo.append(dst)
-            demo_cmd = "cd %s/%s && go test -vet=off -count=1 . 2>&1 | tail -40" % (wt, pk)
+            flags = ""
+            if meta.get("demo_tags"):
+                flags += " -tags %s" % meta["demo_tags"]
+            if meta.get("demo_race"):
+                flags += " -race"
+            only = " -run '%s'" % meta["demo_run"] if meta.get("demo_run") else ""
+            demo_cmd = "cd %s/%s && go test%s -vet=off -count=1%s . 2>&1 | tail -40" % (wt, pk, flags, only)
         rc_with, out_with = sh(demo_cmd, timeout=1200)
         res["demo_fails_with_patch"] = ("FAIL" in out_with) or rc_with != 0
         res["demo_with_tail"] = out_with[-600:]
